@@ -275,7 +275,7 @@ func c05Run(e *Env, concurrent bool) {
 				evs = append(evs, Event{Label: "separate", W: 1, Do: func() {
 					rq.sepSent = true
 					e.Logf("application sends the separate response for n=%d", rq.nonce)
-					e.Probe("app.separateResponse")
+						e.Probe("app.separateResponse")
 					go func() {
 						ctx, cancel := context.WithTimeout(context.Background(), 10*time.Second)
 						defer cancel()
